@@ -138,7 +138,7 @@ func (c *recursionChecker) check(node schema.Node, types map[string]schema.Type)
 			// A property the object doesn't require is optional, whether it is
 			// said by the "optional" rule or by the schema's option to treat
 			// keys as optional by default.
-			if _, ok := required[node.Key(i).Key]; !ok {
+			if _, ok := required[requiredKey{node.Key(i).Key, node.Key(i).IsShortcut}]; !ok {
 				continue
 			}
 			if err := c.check(n, types); err != nil {
@@ -155,14 +155,21 @@ func (c *recursionChecker) check(node schema.Node, types map[string]schema.Type)
 
 // requiredKeys returns the keys a document of the object must have. This is what
 // the validator requires.
-func requiredKeys(node *schema.ObjectNode) map[string]struct{} {
-	keys := map[string]struct{}{}
+func requiredKeys(node *schema.ObjectNode) map[requiredKey]struct{} {
+	keys := map[requiredKey]struct{}{}
 	if c, ok := node.Constraint(constraint.RequiredKeysConstraintType).(*constraint.RequiredKeys); ok {
-		for _, k := range c.Keys() {
-			keys[k] = struct{}{}
+		for i, k := range c.Keys() {
+			keys[requiredKey{k, c.IsShortcut(i)}] = struct{}{}
 		}
 	}
 	return keys
+}
+
+// requiredKey is a required entry of an object: a property or a key shortcut
+// (`@type: value`), which may be spelled alike (`"@type": value`).
+type requiredKey struct {
+	key        string
+	isShortcut bool
 }
 
 func (c *recursionChecker) checkMixedValueNode(
